@@ -110,6 +110,7 @@ func Compile(expr string) (*Expr, error) {
 	vpoint(vRLock, unsafe.Pointer(&globalRegistryMutex))
 	globalRegistryMutex.RLock()
 	vpoint(vRead, unsafe.Pointer(&globalRegistry))
+	vpoint(vRead, vmap(globalRegistry))
 	e.updateRegistry(globalRegistry)
 	globalRegistryMutex.RUnlock()
 	vpoint(vRUnlock, unsafe.Pointer(&globalRegistryMutex))
@@ -225,6 +226,7 @@ func (e *Expr) String() string {
 func (e *Expr) updateRegistry(values map[string]reflect.Value) {
 
 	vpoint(vWrite, unsafe.Pointer(&e.registry))
+	vpoint(vWrite, vmap(e.registry))
 
 	for name, v := range values {
 		if e.registry == nil {
@@ -239,6 +241,7 @@ func (e *Expr) newEnv(input reflect.Value) *environment {
 	tc := timeCallables(time.Now())
 
 	vpoint(vRead, unsafe.Pointer(&e.registry))
+	vpoint(vRead, vmap(e.registry))
 
 	env := newEnvironment(baseEnv, len(tc)+len(e.registry)+1)
 
@@ -351,6 +354,7 @@ func updateGlobalRegistry(values map[string]reflect.Value) {
 	vpoint(vLock, unsafe.Pointer(&globalRegistryMutex))
 	globalRegistryMutex.Lock()
 	vpoint(vWrite, unsafe.Pointer(&globalRegistry))
+	vpoint(vWrite, vmap(globalRegistry))
 
 	for name, v := range values {
 		if globalRegistry == nil {
